@@ -240,6 +240,24 @@ def r4(ctx, r):
                  okdesc="%s::connect reaches no socket call and no session callback (%d functions)" % (last(cls), len(reach)))
 
 
+def r4b(ctx, r):
+    """connectSync's timeout path relies on FIFO order: its Close is queued after the Connect, so it finds the session whatever
+    the I/O thread has got round to.  That only holds if close(sid) ALWAYS queues a command — a close() that first looks the
+    session up and drops the request for an id not yet inserted loses exactly the close of a connect still in the queue."""
+    fb = ctx.fb()
+    for cls in ("iora::network::TcpEngine", "iora::network::UdpEngine"):
+        fs = [g for g in fb.funcs(cls + "::close") if g.ok and len(g.params) == 1]
+        if len(fs) != 1:
+            raise AnalysisBroken("%s::close(sid): %d definitions" % (last(cls), len(fs)))
+        g = fs[0]
+        enq = [e for e in g.stmts() if e.node.get("k") == "mcall" and last(e.node.get("callee", "")) == "enqueue"]
+        r.instance()
+        w = search(g, ("entry",), "exit", stop=lambda x: x in enq, eh=False)
+        r.expect(bool(enq) and w is None, g, None, "%s::close may not queue" % last(cls), "%s::close(sid) can return without queueing a Close command (%s): a close issued for an id whose Connect command has not been "
+                 "dispatched yet — connectSync's timeout path, an application that gives up early — is lost, the connect then completes and nobody closes the session" % (last(cls), witness_str(g, w) if w else "no enqueue"),
+                 okdesc="%s::close always queues" % last(cls))
+
+
 def r5(ctx, r):
     f, la = _cs(ctx), c03._la(ctx)
     wait = _wait(f)
@@ -425,8 +443,6 @@ def r10(ctx, r):
     tclose = closes[0]
     # the protocol this rule knows: connectSync itself does not erase the entry on the timeout path
     own_erases = [e for e in common.member_calls_on(f, IMPL + "::pendingConnects", ("erase",)) if search(f, e, lambda x: x is tclose, eh=False) is not None or search(f, tclose, lambda x, e=e: x is e, eh=False) is not None]
-    if own_erases:
-        raise AnalysisBroken("connectSync erases pendingConnects around its timeout close: a protocol this rule does not know")
     lam = lams["onConnect"]
     erases = common.member_calls_on(lam, IMPL + "::pendingConnects", ("erase",))
     if not erases:
@@ -465,7 +481,25 @@ def r10(ctx, r):
                     for (c, t) in dominating_facts(lam, w):
                         wt |= {x["n"] for x in walk(c) if x.get("k") == "member" and x["n"].startswith(SCO + "::")}
                     r.expect(bool(wt & guard), lam, w, "abandoned waiter completed", "%s is written for a waiter marked as given up" % short(name), okdesc="%s only for a parked waiter" % short(name))
+    if own_erases and not r.failures:
+        # the mark protocol holds, but connectSync also removes entries itself around the close: not the protocol decided here
+        raise AnalysisBroken("connectSync erases pendingConnects around its timeout close: a protocol this rule does not know")
     # the global onConnect stays suppressed for the abandoned waiter: covered by R3 (every global effect entails op == null)
+    # every way connectSync gives up while its entry stays registered needs the mark — not only the timeout: a waiter released
+    # by the teardown fence returns ShuttingDown with the entry in place, and shutdownDrain's close for that id must still be
+    # swallowed.  Returns after the registration that are not the success hand-over (`op->result`) and not behind `done`:
+    reg = [e for e in f.stmts() if e.node.get("k") == "opcall" and e.node.get("op") == "=" and any(x.get("k") == "member" and x["n"] == IMPL + "::pendingConnects" for x in walk(e.node["args"][0]))]
+    if len(reg) != 1:
+        raise AnalysisBroken("connectSync: registration in pendingConnects not found")
+    if marks:
+        for ret in common.returns(f):
+            if not elem_dominates(f, reg[0], ret) or "op->result" in show(ret.node):
+                continue
+            r.instance()
+            marked = any(elem_dominates(f, e, ret) and SYNC in la.mutexes(f, e) for name in marks for (e, n, k) in common.field_writes(f, name))
+            r.expect(marked, f, ret, "waiter gives up unmarked", "connectSync returns an error at line %d while its pendingConnects entry stays registered, without marking the op (%s) under syncMutex first: a connect completing "
+                     "afterwards erases the entry, and the close that ends that session — the drain's, if this was the teardown wake-up — fires the GLOBAL onClose for an id nobody received"
+                     % (ret.line, ", ".join(sorted(short(x) for x in marks))), okdesc="error return after registration is marked")
 
 
 def run(ctx, ck):
@@ -473,6 +507,7 @@ def run(ctx, ck):
     ck.run_rule("C04-R2", "engine connect only behind the shutting-down fence", "A5", lambda r: r2(ctx, r))
     ck.run_rule("C04-R3", "pending synchronous connects are completed and every global effect is suppressed", "A5 (op≠null) + A1", lambda r: r3(ctx, r))
     ck.run_rule("C04-R4", "engine connect() only enqueues", "A3 reachability", lambda r: r4(ctx, r))
+    ck.run_rule("C04-R4b", "engine close(sid) always queues a command (a close before the connect is dispatched is not lost)", "A2 must-pass", lambda r: r4b(ctx, r))
     ck.run_rule("C04-R5", "success only on done and before close; timeout path closes outside the lock and never succeeds", "A5 ghost atom + A1", lambda r: r5(ctx, r))
     ck.run_rule("C04-R7", "I/O-thread guard precedes the first lock in the synchronous operations", "A2 dominance", lambda r: r7(ctx, r))
     ck.run_rule("C04-R8", "cancellable connect tests the token before every attempt and bounds each sub-wait", "A5 + dataflow", lambda r: r8(ctx, r))
